@@ -89,7 +89,7 @@ func Load(cfg Config) (*Engine, error) {
 	prog, _ := ssautil.AllPackages(pkgs, ssa.InstantiateGenerics|ssa.SanityCheckFunctions*0)
 	prog.Build()
 	e := &Engine{Prog: prog, Pkgs: pkgs, RunInit: map[string]bool{}, KnownIDs: map[string]bool{},
-		Solver: "z3", TimeoutMs: 60000, Workers: 16,
+		Solver: "z3", TimeoutMs: 180000, Workers: 16,
 		models: map[string]modelFn{}, symModels: map[string]modelFn{}, execFns: map[*ssa.Function]int{}, modelFns: map[string]int{},
 		initStores: map[*ssa.Global]bool{}}
 	registerModels(e)
@@ -313,6 +313,7 @@ type Result struct {
 	SolverSeconds float64
 	SolverQueries int
 	SolverErrors  []string
+	MaxQuerySeconds float64
 	WallSeconds float64
 	Truncated   bool
 	SamplePCs   []string
@@ -350,10 +351,36 @@ func (e *Engine) Explore(h *Harness, opt Options) *Result {
 			mu.Unlock()
 			return
 		}
+		fallbacks := map[string]*smt.Solver{}
+		getFallback := func(kind string) *smt.Solver {
+			if fs, ok := fallbacks[kind]; ok {
+				return fs
+			}
+			fs, err := smt.NewSolver(kind, e.TimeoutMs)
+			if err != nil {
+				fs = nil
+			}
+			fallbacks[kind] = fs
+			return fs
+		}
+		defer func() {
+			for _, fs := range fallbacks {
+				if fs != nil {
+					mu.Lock()
+					res.SolverSeconds += fs.Seconds
+					res.SolverQueries += fs.Queries
+					mu.Unlock()
+					fs.Close()
+				}
+			}
+		}()
 		defer func() {
 			mu.Lock()
 			res.SolverSeconds += solver.Seconds
 			res.SolverQueries += solver.Queries
+			if solver.MaxSeconds > res.MaxQuerySeconds {
+				res.MaxQuerySeconds = solver.MaxSeconds
+			}
 			for _, er := range solver.Errors {
 				if len(res.SolverErrors) < 20 {
 					res.SolverErrors = append(res.SolverErrors, er)
@@ -377,7 +404,7 @@ func (e *Engine) Explore(h *Harness, opt Options) *Result {
 			active++
 			mu.Unlock()
 
-			p := e.runPath(h, solver, item.prefix, opt)
+			p := e.runPath(h, solver, getFallback, item.prefix, opt)
 
 			mu.Lock()
 			active--
@@ -423,6 +450,7 @@ func (e *Engine) Explore(h *Harness, opt Options) *Result {
 			res.Stats.Unknowns += p.stats.Unknowns
 			res.Stats.GoStmts += p.stats.GoStmts
 			res.Stats.Concretize += p.stats.Concretize
+			res.Stats.Fallbacks += p.stats.Fallbacks
 			if len(res.SamplePCs) < 5 && p.status == "completed" && len(p.pc) > 0 {
 				res.SamplePCs = append(res.SamplePCs, p.pcString(600))
 			}
@@ -458,8 +486,8 @@ type pathOutcome struct {
 	status string
 }
 
-func (e *Engine) runPath(h *Harness, solver *smt.Solver, prefix []Decision, opt Options) (out *pathOutcome) {
-	p := &Path{eng: e, h: h, solver: solver, st: smt.NewStore(), prefix: prefix,
+func (e *Engine) runPath(h *Harness, solver *smt.Solver, fallback func(string) *smt.Solver, prefix []Decision, opt Options) (out *pathOutcome) {
+	p := &Path{eng: e, h: h, solver: solver, fallback: fallback, st: smt.NewStore(), prefix: prefix,
 		globals: map[*ssa.Global]*value{}, inited: map[*ssa.Package]bool{}, locks: map[*value]*lockState{},
 		unwind: map[ssa.Instruction]int{}, unwindBound: opt.UnwindBound, stepBudget: opt.StepBudget,
 		sideTable: map[string]interface{}{}, reach: map[string]int{}, asserts: map[string]int{}, clock: 1_600_000_000,
